@@ -223,6 +223,8 @@ def run_case(c):
         out = run_dsend(st, c)
     elif k == 'bna':
         out = run_bna(st, c)
+    elif k == 'bnag':
+        out = run_bnag(st, c)
     return out
 
 
@@ -327,6 +329,50 @@ def run_bna(st, c):
     except Exception as e:
         out['r'] = 'err ' + type(e).__name__
         out['ops'] = per_op
+    return out
+
+
+def unpv(v):
+    if v is None or isinstance(v, (bool, int)):
+        return v
+    if isinstance(v, float):
+        return {'f': v.hex() if v == v and abs(v) != float('inf') else str(v)}
+    if isinstance(v, str):
+        return {'s': v}
+    if isinstance(v, (list, tuple)):
+        return [unpv(x) for x in v]
+    return {'o': type(v).__name__}
+
+
+def run_bnag(st, c):
+    """collecting proxy BundleNetAddr(addr, send=False): messages, bundles (nested ones with latencies),
+    sync(latency, elements), then get_bundle(time): the element structure as given, encoded by the real encoder"""
+    from sc3.base.netaddr import BundleNetAddr
+    st['clock']._elapsed_osc_offset = 0
+    n = _capture_addr(st)
+    out = {}
+    try:
+        b = BundleNetAddr(n, send=False)
+        for op in c['ops']:
+            if op[0] == 'msg':
+                b.send_msg(*pv(op[1]))
+            elif op[0] == 'bundle':
+                b.send_bundle(None, *pv(op[1]))
+            elif op[0] == 'clumped':
+                b.send_clumped_bundles(None, *pv(op[1]))
+            elif op[0] == 'status':
+                b.send_status_msg()
+            elif op[0] == 'sync':
+                for _ in b.sync(None, pv(op[1]), None if op[2] is None else pv(op[2])):
+                    pass
+        g = b.get_bundle(pv(c['time']))
+        bundles = g if any(op[0] == 'sync' for op in c['ops']) else [g]
+        out['r'] = 'ok'
+        out['struct'] = unpv(bundles)
+        out['hex'] = [guarded(lambda x=x: st['cap']._build_bundle(0.0, x).dgram.hex()) for x in bundles]
+    except Exception as e:
+        out['r'] = 'err ' + type(e).__name__
+        out['hex'] = []
     return out
 
 
